@@ -42,6 +42,7 @@ class Run:
         self.outcomes = {}
         self.rejected = []      # (universe name, trace record, reject payload, case or None)
         self.samples = []
+        self.sample_keys = set()
         self.isolation = {"suspected": 0, "timeouts": 0, "aborts": 0, "batches": 0}
 
 
@@ -109,9 +110,11 @@ def absorb(run, wd, name, label, r, rejects, uni, tok, keep_samples=2):
             if n in rejects:
                 rej_recs[n] = rec
                 want_cases[n] = None
-            elif len(run.samples) < 40 and keep_samples and (n % max(1, uni["records"] // keep_samples) == 7 % max(1, uni["records"] // keep_samples)):
+            elif (label, key) not in run.sample_keys and keep_samples:
+                # one sample per (universe, outcome): the first input with that outcome
+                run.sample_keys.add((label, key))
                 run.samples.append({"universe": label, "id": rec["id"], "input": rec["input"] if tok else None,
-                                    "events": [e["e"] + (":" + e["r"] if e["e"] == "ret" else "") for e in evs]})
+                                    "events": [e["e"] + (":" + e["r"] + ":" + e["st"] if e["e"] == "ret" else "") for e in evs]})
     if n != uni["records"]:
         vlib.tool_error("%s: TLC saw %d records, the trace has %d" % (name, uni["records"], n))
     if want_cases and os.path.exists(cases_path):
@@ -384,10 +387,11 @@ def run(ctx):
 
     # 2. conformance: every recorded run must be a complete behaviour
     quick = tier == "quick"
-    l20, l31 = (4, 3) if quick else (5, 4)
+    # (universe, max tokens): the body frame reaches the later phases most often, so it gets the long bound
+    plan = (("tok20.top", 4), ("tok20.body", 4), ("tok31.top", 3), ("tok31.body", 3), ("tok31.raw", 3)) if quick else \
+           (("tok20.top", 4), ("tok20.body", 5), ("tok31.top", 3), ("tok31.body", 4), ("tok31.raw", 4))
     chunk = 45000 if quick else 240000
-    for u, maxlen in (("tok20.top", l20), ("tok20.body", l20), ("tok31.body", l31), ("tok31.raw", l31)) + \
-            (() if quick else (("tok31.top", l31),)):
+    for u, maxlen in plan:
         tok_universe(run_, wd, u, maxlen, chunk, parallel=4)
     case_universe(run_, wd, ["proj"], "proj", "projects")
     nmut, rounds = (40000, 1) if quick else (80000, 5)
@@ -424,12 +428,12 @@ def run(ctx):
     ev.set(evaluations=run_.records, distinct_nontrivial=run_.distinct_nontrivial,
            states=run_.states + m.distinct, transitions=run_.transitions + m.generated,
            traces_validated_against_impl=run_.records,
-           rule="inputs: every token string of length <=%d over the 20-spelling alphabet Tok20 (framed as top-level text and as entry-point body) "
-                "and of length <=%d over the 31-spelling alphabet Tok31 (body frame, raw; thorough also top frame), index-addressed with "
-                "completeness decided by TLC; the project families x module variants x {std,no-std}; "
+           rule="inputs: every token string over the 20-spelling alphabet Tok20 and the 31-spelling alphabet Tok31 up to the lengths listed "
+                "under universes (framed as top-level text, as entry-point body, or raw), index-addressed with completeness decided by TLC; "
+                "the project families x module variants x {std,no-std}; "
                 "and seeded corpus mutations (20 kinds); a case counts as distinct+non-trivial when its content hash (files, main, flags) "
-                "is new in this run and its main file has >=1 token" % ((4, 3) if quick else (5, 4)),
-           samples=run_.samples[:12], universes=run_.universes, outcomes=run_.outcomes,
+                "is new in this run and its main file has >=1 token",
+           samples=run_.samples[:30], universes=run_.universes, outcomes=run_.outcomes,
            trace_actions={k: v for k, v in run_.coverage.items()}, isolation=run_.isolation,
            rejected_runs=len(run_.rejected), violation_reports=reports,
            negative_controls_rejected=neg, known_findings_hit=verdicts.known_hits,
